@@ -9,16 +9,17 @@ use rtcp_types::{
 };
 
 #[derive(Clone, Debug, PartialEq, Eq)]
-pub struct Custom<'a, const PT: u8, const MIN: usize, const SSRC: bool> {
+pub struct Custom<'a, const PT: u8, const MIN: usize, const SSRC: bool, const MAXC: u8> {
     data: &'a [u8],
 }
 
-impl<'a, const PT: u8, const MIN: usize, const SSRC: bool> RtcpPacket for Custom<'a, PT, MIN, SSRC> {
+impl<'a, const PT: u8, const MIN: usize, const SSRC: bool, const MAXC: u8> RtcpPacket for Custom<'a, PT, MIN, SSRC, MAXC> {
+    const MAX_COUNT: u8 = MAXC;
     const MIN_PACKET_LEN: usize = MIN;
     const PACKET_TYPE: u8 = PT;
 }
 
-impl<'a, const PT: u8, const MIN: usize, const SSRC: bool> RtcpPacketParser<'a> for Custom<'a, PT, MIN, SSRC> {
+impl<'a, const PT: u8, const MIN: usize, const SSRC: bool, const MAXC: u8> RtcpPacketParser<'a> for Custom<'a, PT, MIN, SSRC, MAXC> {
     fn parse(data: &'a [u8]) -> Result<Self, RtcpParseError> {
         parser::check_packet::<Self>(data)?;
         Ok(Self { data })
@@ -30,7 +31,7 @@ impl<'a, const PT: u8, const MIN: usize, const SSRC: bool> RtcpPacketParser<'a> 
     }
 }
 
-impl<'a, const PT: u8, const MIN: usize, const SSRC: bool> Custom<'a, PT, MIN, SSRC> {
+impl<'a, const PT: u8, const MIN: usize, const SSRC: bool, const MAXC: u8> Custom<'a, PT, MIN, SSRC, MAXC> {
     pub fn padding(&self) -> Option<u8> {
         parser::parse_padding(self.data)
     }
@@ -53,26 +54,32 @@ impl<'a, const PT: u8, const MIN: usize, const SSRC: bool> Custom<'a, PT, MIN, S
 }
 
 #[derive(Debug)]
-pub struct CustomBuilder<'a, const PT: u8, const MIN: usize, const SSRC: bool> {
+pub struct CustomBuilder<'a, const PT: u8, const MIN: usize, const SSRC: bool, const MAXC: u8> {
     pub ssrc: u32,
     pub padding: u8,
     pub count: u8,
     pub payload: &'a [u8],
     /// a third-party writer may report "no padding" as Some(0) (the trait allows it)
     pub some0: bool,
+    /// a conservative third-party writer: calculate_size() is an upper bound (room for an optional extension that
+    /// is not written); write_into_unchecked() returns what it really wrote
+    pub reserve: usize,
 }
 
-impl<'a, const PT: u8, const MIN: usize, const SSRC: bool> RtcpPacketWriter for CustomBuilder<'a, PT, MIN, SSRC> {
+impl<'a, const PT: u8, const MIN: usize, const SSRC: bool, const MAXC: u8> RtcpPacketWriter for CustomBuilder<'a, PT, MIN, SSRC, MAXC> {
     fn calculate_size(&self) -> Result<usize, RtcpWriteError> {
         writer::check_padding(self.padding)?;
-        if self.count > 31 {
-            return Err(RtcpWriteError::CountOutOfRange { count: self.count, max: 31 });
+        if self.count > MAXC {
+            return Err(RtcpWriteError::CountOutOfRange { count: self.count, max: MAXC });
         }
-        Ok(4 + if SSRC { 4 } else { 0 } + self.payload.len() + self.padding as usize)
+        Ok(4 + if SSRC { 4 } else { 0 } + self.payload.len() + self.padding as usize + self.reserve)
     }
 
     fn write_into_unchecked(&self, buf: &mut [u8]) -> usize {
-        let mut end = writer::write_header_unchecked::<Custom<PT, MIN, SSRC>>(self.padding, self.count, buf);
+        // the header length is taken from the slice handed in: a conservative writer hands in what it will write
+        let real = buf.len() - self.reserve;
+        let buf = &mut buf[..real];
+        let mut end = writer::write_header_unchecked::<Custom<PT, MIN, SSRC, MAXC>>(self.padding, self.count, buf);
         if SSRC {
             buf[end..end + 4].copy_from_slice(&self.ssrc.to_be_bytes());
             end += 4;
@@ -96,14 +103,14 @@ impl<'a, const PT: u8, const MIN: usize, const SSRC: bool> RtcpPacketWriter for 
     }
 }
 
-impl<'a, const PT: u8, const MIN: usize, const SSRC: bool> TryFrom<&'a Unknown<'a>> for Custom<'a, PT, MIN, SSRC> {
+impl<'a, const PT: u8, const MIN: usize, const SSRC: bool, const MAXC: u8> TryFrom<&'a Unknown<'a>> for Custom<'a, PT, MIN, SSRC, MAXC> {
     type Error = RtcpParseError;
     fn try_from(u: &'a Unknown<'a>) -> Result<Self, Self::Error> {
         Custom::parse(u.data())
     }
 }
 
-impl<'a, const PT: u8, const MIN: usize, const SSRC: bool> TryFrom<&'a Packet<'a>> for Custom<'a, PT, MIN, SSRC> {
+impl<'a, const PT: u8, const MIN: usize, const SSRC: bool, const MAXC: u8> TryFrom<&'a Packet<'a>> for Custom<'a, PT, MIN, SSRC, MAXC> {
     type Error = RtcpParseError;
     fn try_from(p: &'a Packet<'a>) -> Result<Self, Self::Error> {
         match p {
@@ -113,22 +120,25 @@ impl<'a, const PT: u8, const MIN: usize, const SSRC: bool> TryFrom<&'a Packet<'a
     }
 }
 
-/// The family: (packet type, minimum length, has SSRC).  Index = "fam" in scripts.
-pub const FAMILY: [(u8, usize, bool); 7] =
-    [(242, 12, true), (199, 4, false), (207, 8, true), (0, 16, true), (255, 12, true), (192, 28, true), (242, 20, true)];
+/// The family: (packet type, minimum length, has SSRC, MAX_COUNT of the RtcpPacket impl).  Index = "fam" in scripts.
+pub const FAMILY: [(u8, usize, bool, u8); 9] =
+    [(242, 12, true, 31), (199, 4, false, 31), (207, 8, true, 31), (0, 16, true, 31), (255, 12, true, 31), (192, 28, true, 31),
+     (242, 20, true, 31), (210, 8, true, 20), (211, 4, false, 16)];
 
 /// Dispatch a generic closure-like visitor over the family member `fam`.
 #[macro_export]
 macro_rules! with_family {
     ($fam:expr, $mac:ident, $($args:tt)*) => {
         match $fam {
-            0 => $mac!(242, 12, true, $($args)*),
-            1 => $mac!(199, 4, false, $($args)*),
-            2 => $mac!(207, 8, true, $($args)*),
-            3 => $mac!(0, 16, true, $($args)*),
-            4 => $mac!(255, 12, true, $($args)*),
-            5 => $mac!(192, 28, true, $($args)*),
-            6 => $mac!(242, 20, true, $($args)*),      // same packet type as member 0, larger minimum
+            0 => $mac!(242, 12, true, 31, $($args)*),
+            1 => $mac!(199, 4, false, 31, $($args)*),
+            2 => $mac!(207, 8, true, 31, $($args)*),
+            3 => $mac!(0, 16, true, 31, $($args)*),
+            4 => $mac!(255, 12, true, 31, $($args)*),
+            5 => $mac!(192, 28, true, 31, $($args)*),
+            6 => $mac!(242, 20, true, 31, $($args)*),      // same packet type as member 0, larger minimum
+            7 => $mac!(210, 8, true, 20, $($args)*),       // a type whose count has a smaller maximum (MAX_COUNT overridden)
+            8 => $mac!(211, 4, false, 16, $($args)*),
             _ => $crate::util::tool_error("bad family index"),
         }
     };
